@@ -473,6 +473,139 @@ func genCacheGlue() {
 		problem("cache.go: etagFromResponse reads no response header that was recognised")
 	}
 	l.defStrList("cacheglue_etagHeaders", hl)
+
+	// --- the branch of RoundTrip that has no validator (`if !t.etagRequired`): the condition that selects it, how a
+	// hit is recognised, and what a miss does — its statements (tracing left out) and EVERY call it makes: nothing may
+	// be saved there (Model: storesReal)
+	plainCond, plainOpen, plainHit := "<missing>", "<missing>", "<missing>"
+	var plainMiss, plainMissCalls []string
+	if fd := f.fn("cacheTransport.RoundTrip"); fd != nil {
+		isTrace := func(src string) bool { return strings.Contains(src, "otel.Tracer(") || strings.HasPrefix(src, "defer span.End()") }
+		for _, st := range fd.Body.List {
+			is, ok := st.(*ast.IfStmt)
+			if !ok || !strings.Contains(f.src(is.Cond), "etagRequired") {
+				continue
+			}
+			plainCond = f.src(is.Cond)
+			if is.Else != nil {
+				plainCond += " (else …)"
+			}
+			for i, b := range is.Body.List {
+				switch x := b.(type) {
+				case *ast.AssignStmt:
+					if strings.Contains(f.src(x), "os.Open(") {
+						plainOpen = f.src(x)
+						if i+1 < len(is.Body.List) {
+							if miss, ok := is.Body.List[i+1].(*ast.IfStmt); ok && f.src(miss.Cond) == "err != nil" && miss.Else == nil {
+								for _, m := range miss.Body.List {
+									src := f.src(m)
+									if isTrace(src) {
+										continue
+									}
+									if mi, ok := m.(*ast.IfStmt); ok {
+										var body []string
+										for _, mb := range mi.Body.List {
+											if rs, ok := mb.(*ast.ReturnStmt); ok && len(rs.Results) == 2 {
+												if ce, ok := rs.Results[1].(*ast.CallExpr); ok && f.src(ce.Fun) == "fmt.Errorf" {
+													body = append(body, "return "+f.src(rs.Results[0])+", fmt.Errorf(…)")
+													continue
+												}
+											}
+											body = append(body, f.src(mb))
+										}
+										src = "if " + f.src(mi.Cond) + " { " + strings.Join(body, "; ") + " }"
+										if mi.Else != nil {
+											src += " else …"
+										}
+									}
+									plainMiss = append(plainMiss, src)
+								}
+								ast.Inspect(miss.Body, func(n ast.Node) bool {
+									if ce, ok := n.(*ast.CallExpr); ok {
+										fn := f.src(ce.Fun)
+										if strings.HasPrefix(fn, "otel.") || strings.HasPrefix(fn, "fmt.") || fn == "span.End" || strings.HasSuffix(fn, ".Start") ||
+											fn == "request.URL.String" {
+											return true
+										}
+										plainMissCalls = append(plainMissCalls, f.src(ce))
+									}
+									return true
+								})
+							}
+						}
+					}
+				case *ast.ReturnStmt:
+					if len(x.Results) == 2 {
+						var flds []string
+						ast.Inspect(x.Results[0], func(n ast.Node) bool {
+							if kv, ok := n.(*ast.KeyValueExpr); ok {
+								flds = append(flds, f.src(kv))
+							}
+							return true
+						})
+						plainHit = "return {" + strings.Join(flds, ", ") + "}, " + f.src(x.Results[1])
+					}
+				}
+			}
+		}
+	}
+	if plainCond == "<missing>" || plainOpen == "<missing>" || len(plainMiss) == 0 {
+		problem("cache.go: the branch of cacheTransport.RoundTrip without a validator (etagRequired) was not recognised")
+	}
+	if plainMissCalls == nil {
+		plainMissCalls = []string{}
+	}
+	l.defStr("cacheglue_plainCond", plainCond)
+	l.defStr("cacheglue_plainOpen", plainOpen)
+	l.defStr("cacheglue_plainHit", plainHit)
+	l.defStrList("cacheglue_plainMiss", plainMiss)
+	l.defStrList("cacheglue_plainMissCalls", plainMissCalls)
+	// key discovery: which client (etagRequired = false: that branch), which memo, and what happens to its error
+	var disc []string
+	if fd := fi.fn("APK.DiscoverKeys"); fd != nil {
+		ast.Inspect(fd.Body, func(n ast.Node) bool {
+			if ce, ok := n.(*ast.CallExpr); ok {
+				switch fn := fi.src(ce.Fun); {
+				case fn == "a.cache.client":
+					disc = append(disc, fi.src(ce))
+				case strings.HasSuffix(fn, ".Do") && len(ce.Args) > 0 && strings.Contains(fn, "cache"):
+					disc = append(disc, fn+"("+fi.src(ce.Args[0])+")")
+				}
+			}
+			return true
+		})
+	}
+	if len(disc) == 0 {
+		problem("implementation.go: the caching client / memo of (*APK).DiscoverKeys was not recognised")
+	}
+	l.defStrList("cacheglue_discoverCalls", disc)
+	discErr := "<missing>"
+	if fd := fi.fn("APK.fetchChainguardKeys"); fd != nil {
+		for i, st := range fd.Body.List {
+			if as, ok := st.(*ast.AssignStmt); ok && strings.Contains(fi.src(as), "a.DiscoverKeys(") && i+1 < len(fd.Body.List) {
+				if is, ok := fd.Body.List[i+1].(*ast.IfStmt); ok {
+					var body []string
+					for _, b := range is.Body.List {
+						if es, ok := b.(*ast.ExprStmt); ok {
+							if ce, ok := es.X.(*ast.CallExpr); ok {
+								body = append(body, fi.src(ce.Fun)+"(…)")
+								continue
+							}
+						}
+						body = append(body, fi.src(b))
+					}
+					discErr = fi.src(as) + "; " + fi.src(is.Cond) + " => " + strings.Join(body, "; ")
+				}
+			}
+		}
+	}
+	if discErr == "<missing>" {
+		problem("implementation.go: the DiscoverKeys call of fetchChainguardKeys was not recognised")
+	}
+	l.defStr("cacheglue_discoverErr", discErr)
+	hashFn("pkg/apk/apk/implementation.go", "APK.DiscoverKeys")
+	hashFn("pkg/apk/apk/implementation.go", "DiscoverKeys")
+	hashFn("pkg/apk/apk/implementation.go", "APK.fetchChainguardKeys")
 	hashFn("pkg/apk/apk/index.go", "GetRepositoryIndexes")
 	hashFn("pkg/apk/apk/cache.go", "cacheTransport.head")
 	hashFn("pkg/apk/apk/cache.go", "cacheDirFromFile")
